@@ -281,6 +281,24 @@ class GenericTranspiler(object):
 
     raise NotImplementedError('Non-function: {}'.format(type(obj)))
 
+  def _identifiers_of(self, node):
+    """Returns every identifier that the code of `node` mentions."""
+    names = set()
+    for n in ast.walk(node):
+      if isinstance(n, ast.Name):
+        names.add(n.id)
+      elif isinstance(n, ast.arg):
+        names.add(n.arg)
+      elif isinstance(n, (ast.FunctionDef, ast.AsyncFunctionDef, ast.ClassDef)):
+        names.add(n.name)
+      elif isinstance(n, (ast.Global, ast.Nonlocal)):
+        names.update(n.names)
+      elif isinstance(n, ast.ExceptHandler) and n.name:
+        names.add(n.name)
+      elif isinstance(n, ast.alias):
+        names.add((n.asname or n.name).split('.')[0])
+    return names
+
   def _erase_arg_defaults(self, node):
     """Erase arg default expressions, which would otherwise be unbound."""
     args = node.args
@@ -343,7 +361,9 @@ class GenericTranspiler(object):
     origin_info.resolve_entity(node, source, fn)
 
     namespace = inspect_utils.getnamespace(fn)
-    namer = naming.Namer(namespace)
+    # Generated symbols must not collide with any identifier of the function,
+    # including ones that are only assigned or belong to another scope of it.
+    namer = naming.Namer(namespace, self._identifiers_of(node))
     new_name = namer.new_symbol(self.get_transformed_name(node), ())
     entity_info = transformer.EntityInfo(
         name=new_name,
